@@ -809,6 +809,16 @@ class Interp:
                     return ("const", item.value in o.entries)
                 if isinstance(item, Const) and item.value in o.entries:
                     return PTRUE
+                if ("d", desc(item)) in o.entries:
+                    return PTRUE
+                if not o.each and not o.sym:
+                    if not o.entries:
+                        return PFALSE
+                    # named witnesses ('obj', name) denote pairwise distinct values
+                    def named(d):
+                        return isinstance(d, tuple) and len(d) == 3 and d[0] == "elem" and isinstance(d[1], tuple) and d[1][:1] == ("obj",)
+                    if named(desc(item)) and all((isinstance(k, tuple) and k[:1] == ("d",) and named(k[1])) or not isinstance(k, tuple) for k in o.entries):
+                        return PFALSE
                 return ("in", desc(item), ("dict", container.oid))
             if isinstance(o, HList):
                 if o.concrete():
